@@ -129,7 +129,7 @@ def gen(ctx, mod, cfg, num, depth, asis=False, sdafter=9999):
         sts = tlaparse.parse_behaviour_file(f)
         os.unlink(f)
         if len(sts) > 3:
-            behs.append([{k: s[k] for k in ("act", "queues", "run", "backoff", "down")} | {"buffered": pairfn(s["buffered"]), "mstate": pairfn(s["mstate"])} for s in sts])
+            behs.append([{k: s[k] for k in ("act", "queues", "run", "backoff", "down")} | {"buffered": pairfn(s["buffered"]), "mstate": pairfn(s["mstate"]), "schedOn": sorted(s["schedOn"])} for s in sts])
     if not behs:
         raise Infra("no behaviours")
     return behs
@@ -207,8 +207,10 @@ def e2e(ctx, prefixes, configs, per, depth=50, sdafter=9999, nrandom=0):
     return len(cases), stats
 
 
-WHY_PROP = {"overlap": "C03", "out-of-order-lost-or-duplicated": "C07", "retry-different": "C04", "lost": "C01",
+WHY_PROP = {"overlap": "C03", "out-of-order": "C03", "out-of-order-lost-or-duplicated": "C07", "retry-different": "C04", "lost": "C01",
             "end-without-start": "C03", "still-running": "C04"}
+# a reason may speak about more than one property
+WHY_ALSO = {"out-of-order": {"C07"}, "out-of-order-lost-or-duplicated": {"C01"}}
 
 
 def oplog(ctx, pid):
@@ -228,7 +230,7 @@ def oplog(ctx, pid):
         l, why = last.get("l", 0), str(last.get("why", "?"))
         prop = WHY_PROP.get(why, "DIV")
         detail = "free-running operator: %s at record %d: %s; pending %s" % (why, l - 1, json.dumps(events[l - 2] if 2 <= l <= len(events) + 1 else {})[:400], json.dumps(last.get("pending"))[:300])
-        if prop == pid or (pid == "C01" and why == "out-of-order-lost-or-duplicated"):
+        if prop == pid or pid in WHY_ALSO.get(why, ()):
             ctx.fail("%s/oplog/%s" % (pid, why), detail, {"trace_window": events[max(0, l - 15):l]})
         else:
             ctx.notes.append("DIVERGENCE %s/oplog/%s: %s" % (prop, why, detail[:300]))
